@@ -91,14 +91,16 @@ Eval(d, id, conn, ver, tdM, vis) ==
       [] d.k = "S" -> \E e \in vis : e[1] \in tdM[d.t] /\ Port[e[2]] = Port[conn]
 
 (* ---------- index files ---------- *)
-Entries(fseq)  == UNION {files[fseq[i]] : i \in DOMAIN fseq}
+\* total on purpose: the predicates are also evaluated on states of a (possibly broken) implementation
+ContentOf(F, f) == IF f \in DOMAIN F THEN F[f] ELSE {}
+Entries(fseq)  == UNION {ContentOf(files, fseq[i]) : i \in DOMAIN fseq}
 IdsOf(content) == {e[1] : e \in content}
 \* newest stored version of every stream id in a stack of files (oldest first)
 VisibleIn(F, fseq) ==
-    {e \in UNION {F[fseq[i]] : i \in DOMAIN fseq} :
+    {e \in UNION {ContentOf(F, fseq[i]) : i \in DOMAIN fseq} :
         \E i \in DOMAIN fseq :
-            /\ e \in F[fseq[i]]
-            /\ \A j \in DOMAIN fseq : j > i => e[1] \notin IdsOf(F[fseq[j]])}
+            /\ e \in ContentOf(F, fseq[i])
+            /\ \A j \in DOMAIN fseq : j > i => e[1] \notin IdsOf(ContentOf(F, fseq[j]))}
 Visible(fseq) == VisibleIn(files, fseq)
 
 (* ---------- reference counting (lock / release, manager.go:1379-1396) ---------- *)
@@ -166,7 +168,7 @@ StartTag(b, idx, pick) ==
                                  td |-> [r \in Refs(b.tags[pick].def) |-> b.tags[r].M], M1 |-> {}]]
 
 \* startMergeJobIfNeeded (manager.go:689-710)
-CountOf(F, f) == Cardinality(F[f])
+CountOf(F, f) == Cardinality(ContentOf(F, f))
 MergeOffset(tg, fl, idx, F, unm) ==
     IF fl.merge \/ fl.tag \/ fl.conv \/ (\E t \in DOMAIN tg : tg[t].U # {}) THEN 0
     ELSE LET total == LET RECURSIVE sum(_)
@@ -232,7 +234,7 @@ ConnsOf(K)      == {c \in Conns : Pieces[c] \cap K # {}}
 ImportCompute(f) ==
     LET j == jobs.import
         B == Range(j.batch)
-        snap == UNION {files[j.idx[i]] : i \in DOMAIN j.idx}
+        snap == UNION {ContentOf(files, j.idx[i]) : i \in DOMAIN j.idx}
         idOf(c) == LET es == {e \in snap : e[2] = c} IN IF es = {} THEN -1 ELSE (CHOOSE e \in es : TRUE)[1]
         touched == ConnsOf(B)
         fresh == {c \in touched : idOf(c) = -1}
@@ -620,7 +622,9 @@ Settled ==
     /\ ~flags.merge /\ ~flags.tag /\ ~flags.conv
     /\ \A t \in DOMAIN tags : tags[t].U = {}
     /\ \A c \in DOMAIN toConv : toConv[c] = {}
-    /\ MergeOffset(tags, flags, indexes, files, unmerge) = 0
+\* (A merge that is eligible but was not started - the converter job's completion does not call
+\*  startMergeJobIfNeeded - is not part of the claim: nothing further starts by itself.)
+MergePending == MergeOffset(tags, flags, indexes, files, unmerge) # 0
 \* no job in flight but work remains: the service is stuck
 Stuck ==
     /\ \A k \in DOMAIN jobs : jobs[k].phase = "none"
